@@ -96,6 +96,10 @@ func (vc *VC) sortOf1(t types.Type, key string) string {
 		return "Cid"
 	case "sync.Mutex", "sync.RWMutex":
 		return vc.intSort()
+	case "sync.Map":
+		// modelled as the set of present keys (values are not tracked)
+		vc.opaqueSort("I_any", types.NewInterfaceType(nil, nil))
+		return "(Array I_any Bool)"
 	}
 	switch u := t.(type) {
 	case *types.Named:
